@@ -47,7 +47,7 @@ def gen(rng, tier):
 
 globals().update(acct_prop.make(
     'C16', components=['validate.'], clauses=['C16.'], gen=gen, analyser=ordering.analyse, prelude=ordering.PRELUDE,
-    coq=['Model/Sizing.v', 'Model/Validators.v', 'Model/Phases.v', 'Proofs/ValidatorsFacts.v', 'Gen/ApiPhases.v'], gen_mods=['ApiPhases'],
+    coq=['Model/Sizing.v', 'Model/Validators.v', 'Model/Phases.v', 'Proofs/ValidatorsFacts.v', 'Gen/ApiPhases.v', 'Gen/ValidatorChain.v'], gen_mods=['ApiPhases', 'ValidatorChain'],
     rule=('random orders on instruments before listing, on the listing day, on suspended days, on and after the delisting day, with limit prices at '
           'and 0.0001 / 0.01 around the band edges, over cash and over the closable holding, with every combination of validator switches, plus a '
           'malformed stream (unknown instrument, NaN limit price); a case is the verdict on one order that reached the validator chain computed by '
